@@ -451,8 +451,11 @@ def emission(ctx, tm):
     r = ctx.r
     f = ctx.repo.func(REL, "HTMLTokenizer.emitCurrentToken")
     src = " ".join(norm(f.node).split())
-    r.check("C02.6", "if token['type'] in tagTokenTypes: token['name'] = token['name'].translate(asciiUpper2Lower)" in src,
-            "tag-name-lowercase", f.where, "emitCurrentToken no longer lower-cases the tag name of every tag token")
+    lowers = [n for n in ast.walk(f.node) if isinstance(n, ast.Assign) and norm(n.targets[0]).endswith("['name']")
+              and isinstance(n.value, ast.Call) and isinstance(n.value.func, ast.Attribute) and n.value.func.attr in ("translate", "lower")]
+    r.idiom("C02.6", "if token['type'] in tagTokenTypes: token['name'] = token['name'].translate(asciiUpper2Lower)" in src,
+            "tag-name-lowercase", f.where, "emitCurrentToken no longer lower-cases the tag name of every tag token",
+            wrong=[(not lowers, None)])
     # duplicate attributes: dict from pairs + update from the reversed list == first wins
     first_wins = False
     shape = "unrecognised"
